@@ -4,6 +4,7 @@
 mod corpus;
 mod gen;
 mod html;
+mod mime;
 mod parse;
 mod script;
 mod sub;
@@ -56,6 +57,7 @@ fn main() {
         "parse" => parse::run(&args),
         "html" => html::run(&args),
         "sub" => sub::run(&args),
+        "mime" => mime::run(&args),
         "script" => script::run(&args),
         "runscript" => script::child(&a[2]),
         s => {
